@@ -24,9 +24,12 @@ HERE = os.path.dirname(os.path.dirname(os.path.abspath(__file__)))
 SEEDED = os.path.join(HERE, "seeded")
 
 
-def run_one(sid: str, checks=None, tier="quick", procs=None) -> dict:
+def run_one(sid: str, checks=None, tier="quick", procs=None, fast=False) -> dict:
+    import re
+
     d = os.path.join(SEEDED, sid)
     meta = json.load(open(os.path.join(d, "meta.json")))
+    fams = sorted(set(re.findall(r"jumanji/environments/\w+/(\w+)/", " ".join(meta.get("files", [])))))
     checks = checks or meta.get("checks") or [meta["property"]]
     scratch = tempfile.mkdtemp(prefix=f"vt-seed-{sid}-", dir="/tmp")
     try:
@@ -42,6 +45,8 @@ def run_one(sid: str, checks=None, tier="quick", procs=None) -> dict:
                        JAX_PLATFORMS="cpu", PYTHONHASHSEED="0")
             if procs:
                 env["VERIF_PROCS"] = str(procs)
+            if fast and fams:
+                env["VERIF_FAMILIES"] = ",".join(fams)  # subset of the quick run: a violation there is one in the full run
             t0 = time.time()
             p = subprocess.run(["/venv/bin/python", "-m", "mc.cli", c, "--tier", tier], cwd=HERE, env=env,
                                capture_output=True, text=True)
@@ -50,6 +55,7 @@ def run_one(sid: str, checks=None, tier="quick", procs=None) -> dict:
             out["checks"][c] = {"exit": p.returncode, "wall_s": round(time.time() - t0, 1),
                                 "lines": lines[:12], "stderr_tail": p.stderr[-300:] if p.returncode not in (0, 1) else ""}
         out["detected_by"] = [c for c, v in out["checks"].items() if v["exit"] == 1]
+        out["restricted_to_families"] = fams if fast else None
         json.dump(out, open(os.path.join(d, f"result-{tier}.json"), "w"), indent=1)
         return out
     finally:
@@ -64,15 +70,19 @@ def main() -> int:
     ap.add_argument("--tier", default="quick")
     ap.add_argument("--jobs", type=int, default=2)
     ap.add_argument("--procs", type=int, default=None)
+    ap.add_argument("--fast", action="store_true", help="restrict graph checks to the families the patch touches")
+    ap.add_argument("--only-missing", action="store_true")
     a = ap.parse_args()
     ids = sorted(x for x in os.listdir(SEEDED) if os.path.exists(os.path.join(SEEDED, x, "meta.json")))
     if a.cmd == "run":
-        r = run_one(a.id, a.checks.split(",") if a.checks else None, a.tier, a.procs)
+        r = run_one(a.id, a.checks.split(",") if a.checks else None, a.tier, a.procs, a.fast)
         print(json.dumps(r, indent=1))
         return 0
     if a.cmd == "run-all":
+        if a.only_missing:
+            ids = [s for s in ids if not os.path.exists(os.path.join(SEEDED, s, f"result-{a.tier}.json"))]
         with cf.ThreadPoolExecutor(a.jobs) as ex:
-            for r in ex.map(lambda s: run_one(s, None, a.tier, a.procs or max(2, 14 // a.jobs)), ids):
+            for r in ex.map(lambda s: run_one(s, None, a.tier, a.procs or max(2, 14 // a.jobs), a.fast), ids):
                 print(r.get("id"), "detected_by=", r.get("detected_by"), r.get("error", ""), flush=True)
         return 0
     rows = []
